@@ -270,6 +270,27 @@ def c10_clauses(B, net, self, what):
 
 # ------------------------------------------------------------------------------------------- send / receive
 
+def timer_snapshot(B, self):
+    tm = B.ctx.st(B.ctx.st(self)["tymer"])
+    return dict(start=tm["_start"], stop=tm["_stop"], refreshable=B.ctx.st(self).get("refreshable"))
+
+
+def refresh_clauses(B, self, t0, traffic, what):
+    """C12: bytes actually moved on a refreshable accepted connection restart its idle timer at the current tyme with the same
+    duration (so the idle deadline is now + tymeout); a call that moved nothing leaves the timer alone"""
+    ctx = B.ctx
+    tm = ctx.st(ctx.st(self)["tymer"])
+    now = z(ctx.ghost["tyme"], "real")
+    start0, stop0 = z(t0["start"], "real"), z(t0["stop"], "real")
+    start1, stop1 = z(tm["_start"], "real"), z(tm["_stop"], "real")
+    rf = z(t0["refreshable"])
+    if B.returned():
+        B.prove("idle-timer-restarted-at-now-when-bytes-" + what, z3.Implies(z3.And(traffic, rf), z3.And(start1 == now, stop1 - start1 == stop0 - start0)),
+                top=True, props=["C12"])
+        B.prove("idle-timer-untouched-when-no-bytes-" + what, z3.Implies(z3.Not(z3.And(traffic, rf)), z3.And(start1 == start0, stop1 == stop0)),
+                top=True, props=["C12"])
+
+
 def send_contract(B, cls, tls):
     net = Net(B)
     sock = net.sock("cs", tls)
@@ -281,8 +302,11 @@ def send_contract(B, cls, tls):
     content = B.bytes("data")
     data = content if arg == "bytes" else B.buf(content)
     cutoff0 = B.ctx.st(self)["cutoff"]
+    t0 = timer_snapshot(B, self)
     B.call(self, data, qual=cls + ".send")
     B.let(wire=sock.wire, logtx=net.logtx, content=content, cutoff0=cutoff0)
+    if cls in (REMOTER, REMOTERTLS):
+        refresh_clauses(B, self, t0, z3.And(z3.BoolVal(net.fault is None), z3.Length(z(sock.wire)) > 0), "sent")
     B.ensures("0 <= result and result <= len(content)", top=True, props=["C09"])
     B.ensures("wire == content[:result]", top=True, props=["C09"])
     if wl:
@@ -303,8 +327,11 @@ def receive_contract(B, cls, tls):
     wlref = B.ext(WireLogModel(net)) if wl else None
     mk_ = make_remoter if cls in (REMOTER, REMOTERTLS) else make_client
     self = mk_(B, net, sock, tls, wlref)
+    t0 = timer_snapshot(B, self)
     B.call(self, qual=cls + ".receive")
     B.let(rwire=sock.rwire, logrx=net.logrx, faulted=net.fault is not None)
+    if cls in (REMOTER, REMOTERTLS):
+        refresh_clauses(B, self, t0, z3.And(z3.BoolVal(net.fault is None), z3.Length(z(sock.rwire)) > 0), "received")
     B.ensures("implies(not faulted, result == rwire)", top=True, props=["C09"])
     B.ensures("implies(faulted, result is None or result == b'')", top=True, props=["C09", "C10"])
     if wl:
@@ -317,11 +344,11 @@ def receive_contract(B, cls, tls):
 
 for _cls, _tls in ((REMOTER, False), (REMOTERTLS, True), (CLIENT, False), (CLIENTTLS, True)):
     def _mk(cls=_cls, tls=_tls):
-        @contract(cls + ".send", props=["C09", "C10"], name=cls + ".send")
+        @contract(cls + ".send", props=["C09", "C10"] + (["C12"] if cls in (REMOTER, REMOTERTLS) else []), name=cls + ".send")
         def _s(B):
             send_contract(B, cls, tls)
 
-        @contract(cls + ".receive", props=["C09", "C10"], name=cls + ".receive")
+        @contract(cls + ".receive", props=["C09", "C10"] + (["C12"] if cls in (REMOTER, REMOTERTLS) else []), name=cls + ".receive")
         def _r(B):
             receive_contract(B, cls, tls)
     _mk()
